@@ -136,11 +136,14 @@ def average_coverage(
 def distance(setmap, p1, p2):
     """
     Compute distance between two platforms
+    If neither platform uses any lines of code, returns NaN.
     """
     total = 0
     for pset, count in setmap.items():
         if (p1 in pset) or (p2 in pset):
             total += count
+    if total == 0:
+        return float("nan")
     d = 0
     for pset, count in setmap.items():
         if (p1 in pset) ^ (p2 in pset):
